@@ -27,7 +27,7 @@ def meta(tier):
                 '(iii) numeric enumerations: every key set within {0..4} x values -1..6, as a code enumeration, an argument enumeration, and both at once with different key sets; (iv) address operands / valid_address numerics '
                 'against zones on a grid (incl. redefined GLOBAL, named memory_zone) x values s-1,s,e,e+1; (v) sliced addresses: slice '
                 'width {4,8,12} x instruction address on both sides of a page boundary x targets in the same / neighbouring pages; (v-b) slice_lsb without match_address_msb: targets inside / beyond the field width from instruction addresses in several pages; '
-                '(vi) relative addresses: (min,max) grid x offset_from_instruction_end x instruction size {2,3,4} x address x every '
+                '(vi) relative addresses: (min,max) grid incl. one-sided and absent bounds x offset_from_instruction_end x instruction size {2,3,4} x address x every '
                 'offset min-1..max+1; non-trivial = value on or adjacent to a boundary (all of them are); distinct by construction',
         'bounds': {'widths': WIDTHS, 'opcodes': OPCODES},
         'assumptions': ['"fits its field" = -2^(w-1) <= v <= 2^w-1 (signed-or-unsigned), as the statement says',
@@ -311,16 +311,21 @@ def shard(acc, tier, idx, n):
                             exp = refenc.encode(ordered)
                         one(acc, isa, f'tst {target}', exp, 'slice-only', addr=addr, why=f'{target:#x} does not fit {w} bits and no high-bit match is configured')
     # ---- (vi) relative addresses ------------------------------------------------------------------------------------
-    for (lo, hi) in ((-128, 127), (-4, 3), (0, 7), (-8, -1), (-1, 1), (-100, 200)):
+    # (None: that bound is not configured; the other one still holds)
+    for (lo, hi) in ((-128, 127), (-4, 3), (0, 7), (-8, -1), (-1, 1), (-100, 200), (None, 10), (-10, None), (None, -2), (3, None), (None, None)):
         for from_end in (False, True):
             for extra_bytes in (0, 1, 2):
                 for w, e in ((8, None), (16, 'little'), (4, None)):
-                    if not (refenc.fits(lo, w) or refenc.fits(hi, w)):
+                    if lo is not None and hi is not None and not (refenc.fits(lo, w) or refenc.fits(hi, w)):
                         continue
                     ctr += 1
                     if ctr % n != idx:
                         continue
-                    cfgd = {'type': 'relative_address', 'argument': {'size': w, 'byte_align': w % 8 == 0, 'min': lo, 'max': hi}}
+                    cfgd = {'type': 'relative_address', 'argument': {'size': w, 'byte_align': w % 8 == 0}}
+                    if lo is not None:
+                        cfgd['argument']['min'] = lo
+                    if hi is not None:
+                        cfgd['argument']['max'] = hi
                     if e:
                         cfgd['argument']['endian'] = e
                     if from_end:
@@ -333,11 +338,13 @@ def shard(acc, tier, idx, n):
                     pad = [('0', None, (0, 8))] * extra_bytes
                     for addr in (0x200, 0x205, 0x2FF):
                         _, isize, _ = ins.fields('big', tuple([('0', None, (0, w))] + pad), addr)
-                        for off in sorted({lo - 1, lo, lo + 1, hi - 1, hi, hi + 1, 0, -(1 << (w - 1)) - 1, (1 << w)}):
+                        lo_e = lo if lo is not None else -(1 << (w - 1))
+                        hi_e = hi if hi is not None else (1 << w) - 1
+                        for off in sorted({lo_e - 1, lo_e, lo_e + 1, hi_e - 1, hi_e, hi_e + 1, 0, -(1 << (w - 1)) - 1, -(1 << (w - 1)), (1 << w) - 1, (1 << w)}):
                             target = addr + off + ((isize - 1) if from_end else 0)
                             if target < 0 or target > 0xFFFF:
                                 continue
-                            ok = lo <= off <= hi and refenc.fits(off, w)
+                            ok = (lo is None or lo <= off) and (hi is None or off <= hi) and refenc.fits(off, w)
                             exp = None
                             if ok:
                                 ordered, _, _ = ins.fields('big', tuple([(str(target), None, (off, w))] + pad), addr)
